@@ -48,6 +48,10 @@ from django_components.expression import DynamicFilterExpression, is_dynamic_exp
 TAG_WHITESPACE = (" ", "\t", "\n", "\r", "\f")
 TAG_FILTER = ("|", ":")
 TAG_SPREAD = ("*", "**", "...")
+# Nested lists and dicts are serialized, compiled and resolved recursively. We limit how deep
+# they can be nested, so that a (malicious) input like `[[[[...]]]]` raises TemplateSyntaxError
+# instead of RecursionError.
+MAX_NESTING_DEPTH = 100
 
 
 @dataclass
@@ -602,6 +606,10 @@ def parse_tag(text: str, parser: Optional[Parser]) -> Tuple[str, List[TagAttr]]:
             take_while(TAG_WHITESPACE)
 
             curr_value = stack[-1]
+
+            # NOTE: `stack` also contains the fake root item, hence the `+ 1`
+            if len(stack) > MAX_NESTING_DEPTH + 1:
+                raise TemplateSyntaxError(f"Lists and dicts cannot be nested more than {MAX_NESTING_DEPTH} levels")
 
             # Manage state with regards to lists and dictionaries
             if is_next_container("["):
